@@ -161,7 +161,8 @@ PROPS["C06"] = dict(
     pkg="./props/session", level="exploration", design_ref="DESIGN.md §3 C06, Appendix C",
     technique="rapid-generated header-defect matrix delivered in every logged-on state; reactions compared with an independent decision table written from the statement, callbacks checked against the gate recomputed from the inbound bytes",
     level_note=SESSION_NOTE,
-    stages=[dict(name="rapid", kind="rapid", run="^TestC06_Rapid$", checks=(3000, 60000), shards=(12, 16), timeout=(600, 3000))],
+    stages=[dict(name="rapid", kind="rapid", run="^TestC06_Rapid$", checks=(3000, 60000), shards=(12, 16), timeout=(600, 3000)),
+            dict(name="acceptor-lookup", kind="plain", run="^TestC06_AcceptorLookup$", shards=(0, 4), timeout=(0, 600), thorough_only=True)],
     require=["state:normal", "state:recovering", "state:pending", "state:pending+recovering", "state:logon", "defects:control", "multi-defect", "follow-up:gap-filled", "follow-up:kept-message-delivered"],
     assumptions=["SendingTime values are placed at least 30 s away from the latency window edge, so the verdict does not depend on the run time",
                  "whether a plain Reject advances the expected number is not fixed by the statement and not asserted",
